@@ -117,6 +117,15 @@ META = {
         rule="run = one tape: (role, negotiation, reader API, limit, 1-3 message sizes relative to the limit with fragmentation and compression, limit changes, special case none/bomb/huge-declared, EOF or stall ending, chunk policy, schedule). Non-trivial = every run; distinct = distinct event-log SHA-256.",
         real=REAL + ["wsjson", "NetConn adapter"], stub=STUB + RAW, assumptions=COMMON_ASSUME,
     ),
+    "C20": dict(
+        level="exploration",
+        level_text="Seeded simulation of histories of 1-6 connections opened and closed one after another (25%: two interleaved sequences) inside one bubble, each with drawn prior operations (writes, a ping, CloseRead, NetConn with a deadline, an abandoned half-read message, an abandoned Writer) and one of 10 endings (Close, CloseNow, peer Close then Close/CloseNow, protocol error then CloseNow, context expiry then Close, transport EOF then Close, transport error then CloseNow, silent peer Close, CloseRead closing on a data message then Close), on both roles, against a scripted peer or a second real endpoint. After each Close/CloseNow returns the scheduler waits for quiescence and parses the goroutine dump of the bubble: goroutines created by the library (newConn -> timeoutLoop, CloseRead's reader) may not exceed those of connections still open, and none may remain at the end. Independently the bubble must end without synctest's 'blocked goroutines remain' panic. Sampling, not proof.",
+        level_note="Library goroutines are recognised by their 'created by nhooyr.io/websocket.newConn / (*Conn).CloseRead' line; the wait inside Close itself (<= 15 s of fake time) is allowed here, its promptness is C09's.",
+        technique="deterministic simulation: seeded histories x endings, goroutine-dump oracle at scheduler quiescence + end-of-bubble leak detection",
+        design_ref="DESIGN.md 6 C20",
+        rule="run = one tape: (number of connections, sequential or two interleaved sequences, per connection: pair/raw, role, compression, prior operations, ending kind; schedule). Non-trivial = every run (each closes at least one connection); distinct = distinct event-log SHA-256.",
+        real=REAL + ["NetConn adapter"], stub=STUB + RAW, assumptions=COMMON_ASSUME,
+    ),
 }
 
 NOT_APPLICABLE = [
